@@ -10,7 +10,7 @@ use crate::render::*;
 use crate::runner::*;
 use crate::schema::Schema;
 use crate::tsmini::{self, Program, Val};
-use nitrogql_printer::OperationTypePrinterOptions;
+use crate::introspect::{introspect, IntrospectOpts};
 use serde_json::json;
 use std::collections::BTreeMap;
 use std::path::PathBuf;
@@ -154,7 +154,10 @@ fn case_fn(case: &mut Case) -> CaseResult {
     so.comment_close_in_text = case.allow("description_with_comment_close");
     let gs = gen_schema(&mut case.ch, &so);
     let s = &gs.schema;
-    let cfg = ScalarCfg::generate(&mut case.ch, s, true);
+    // a quarter of the cases take the introspection route (schema given as the JSON a server returns; no
+    // directive applications exist there, so every scalar type comes from the configuration)
+    let via_json = case.ch.chance(1, 4);
+    let cfg = ScalarCfg::generate(&mut case.ch, s, !via_json);
     let allow_undefined = case.ch.flip();
     // operation with explicit variable definitions
     let nv = case.ch.range(1, 5);
@@ -177,30 +180,66 @@ fn case_fn(case: &mut Case) -> CaseResult {
         sel: vec![MSelection::Field(MFieldSel { alias: None, name: "__typename".into(), args: vec![], directives: vec![], sel: None })],
         shorthand: false,
     })];
-    let schema_sdl = canon_ts(&sdl_with_scalar_directives(&gs.doc, &cfg));
+    let sdl_doc = sdl_with_scalar_directives(&gs.doc, &cfg);
+    // half of the SDL schemas are written as definitions plus extensions over one to four files
+    let schema_texts: Vec<String> = if !via_json && case.ch.flip() {
+        case.label("schema-with-extensions");
+        split_into_extensions(&mut case.ch, &sdl_doc).iter().filter(|f| !f.is_empty()).map(|f| canon_ts(f)).collect()
+    } else {
+        vec![canon_ts(&sdl_doc)]
+    };
+    let schema_sdl = schema_texts.join("\n# ---- next file\n");
     let op_text = canon_op(&doc);
     let detail0 = json!({"schema": schema_sdl, "operations": op_text});
-    let sfiles = vec![(PathBuf::from("/p/schema.graphql"), schema_sdl.clone())];
+    let sfiles: Vec<(PathBuf, String)> = schema_texts.iter().enumerate().map(|(i, t)| (PathBuf::from(format!("/p/schema{i}.graphql")), t.clone())).collect();
     let ofiles = vec![(PathBuf::from("/p/ops.graphql"), op_text.clone())];
     let ss = schema_stage(&sfiles, &detail0)?;
     if !ss.ok() {
         let d = ss.all_diags();
         return Err(Failure::new(format!("precondition:schema-rejected:{}", d[0].kind), format!("{:?}", d[0]), detail0));
     }
-    let sdoc = ss.doc.as_ref().unwrap();
-    let os = op_stage(sdoc, 1, &ofiles, &detail0)?;
+    let js;
+    let mut js_text: Option<String> = None;
+    let ischema;
+    let iast;
+    let mut sdoc = ss.doc.as_ref().unwrap();
+    let mut svalue = None;
+    if via_json {
+        case.label("schema-via-introspection-json");
+        let io = IntrospectOpts { meta_types: case.ch.flip(), absent_optionals: case.ch.flip(), shuffle: case.ch.flip() };
+        js = introspect(s, &io, Some(&mut case.ch));
+        js_text = Some(js.clone());
+        ischema = schema_via_introspection(&js, &detail0)?;
+        iast = guard(|| nitrogql_semantics::type_system_to_ast(&ischema)).map_err(|p| panic_failure("type_system_to_ast", &p, detail0.clone()))?;
+        sdoc = &iast;
+        svalue = Some(&ischema);
+    }
+    let os = op_stage_with(sdoc, svalue, sfiles.len(), &ofiles, &detail0)?;
     if let Some(d) = os.all_diags().first() {
         return Err(Failure::new(format!("precondition:document-rejected:{}", d.kind), format!("{:?}", d), detail0));
     }
     let scfg = SchemaGenConfig { scalar_types: cfg.to_nitrogql_map(), allow_undefined_as_optional_input: allow_undefined, emit_schema_runtime: false };
-    let schema_dts = match gen_schema_dts(sdoc, &scfg, None, &detail0)? {
+    let mut schema_dts = match gen_schema_dts(sdoc, &scfg, None, &detail0)? {
         Ok(b) => b.buffer,
         Err(e) => return Err(Failure::new("schema-printer-error", e, detail0)),
     };
     // (options from configuration text, as the CLI builds them: `generate.type.allowUndefinedAsOptionalInput`
     // must reach the operation printer too)
     let oopts = op_options_from(&scfg);
-    let op_dts = gen_operation_dts(sdoc, &os.files[0].doc, oopts, None, &detail0)?.buffer;
+    let mut op_dts = gen_operation_dts_with(sdoc, svalue, &os.files[0].doc, oopts, None, &detail0)?.buffer;
+    // one case in forty: the files are the ones the built CLI leaves in a directory in which `generate` already ran
+    // with other options (users edit the configuration and run the command again)
+    if std::path::Path::new(crate::cli::CLI_BIN).exists() && case.ch.chance(1, 40) {
+        case.label("declarations-from-cli-after-config-change");
+        let files: Vec<(String, String)> = if via_json {
+            vec![("schema.json".to_string(), js_text.clone().unwrap_or_default())]
+        } else {
+            schema_texts.iter().enumerate().map(|(i, t)| (format!("s{i}.graphqls"), t.clone())).collect()
+        };
+        let (a, b, _) = cli_generate_after_earlier_run(&files, &op_text, &scfg, &other_schema_gen_config(&scfg), &detail0)?;
+        schema_dts = a;
+        op_dts = b;
+    }
     let detail = json!({"schema": schema_sdl, "operations": op_text, "operation_dts": op_dts, "allowUndefinedAsOptionalInput": allow_undefined,
         "scalars": cfg.map.iter().map(|(k, v)| (k.clone(), format!("{v:?}"))).collect::<BTreeMap<_, _>>()});
     let mut program = Program::new();
